@@ -150,63 +150,73 @@ theorem innerX_inScope : InScope shadowWitness 0x30 innerX := by
     subst hi
     exact ⟨⟨0x20, 0x50⟩, by simp, by decide, by decide⟩
 
-/-! ## 2b. Outer frames: the scope is taken at the RETURN address -/
+/-! ## 2b. Outer frames: the scope is taken INSIDE the call instruction -/
 
-/-- The property speaks of "the current location of the selected frame"; for an outer frame that is the call
-    instruction, i.e. some address in `[ra - len, ra)`, while the code evaluates the scope at the return address `ra`.
-    Full statement: both give the same listing. -/
-def C19_outer_frame_scope_full : Prop :=
-  ∀ (f : Die) (ra : Nat) (e : Entry), 0 < ra → (e ∈ localVariables f ra ↔ e ∈ localVariables f (ra - 1))
+/-- The property speaks of "the current location of the selected frame"; for an outer frame that is its call
+    instruction, which occupies `[ra - len, ra)` where `ra` is the return address the unwinder reports as the frame's pc.
+    Environment (the compiler's): scope ranges are made of whole instructions — no range of a scope of `f` begins or ends
+    strictly inside the instruction `[lo, hi)`. -/
+def WholeInstr (f : Die) (lo hi : Nat) : Prop :=
+  ∀ e ∈ descP [] f, ∀ i, nearestScope e.1 = some i → ∀ r ∈ i.ranges, (r.lo ≤ lo ∨ hi ≤ r.lo) ∧ (r.hi ≤ lo ∨ hi ≤ r.hi)
 
-/-- named decidable hypothesis: the return address is not a boundary (begin or end) of a scope range of the function -/
-def NotAtScopeEdge (f : Die) (ra : Nat) : Bool :=
-  (descP [] f).all fun e => match nearestScope e.1 with
-    | some i => i.ranges.all fun r => decide (r.hi ≠ ra) && decide (r.lo ≠ ra)
-    | none => true
+/-- frame 0 is looked up at its pc -/
+theorem C19_frame0_scope (f : Die) (pc : Nat) : localVariables f (lookupPc 0 pc) = localVariables f pc := rfl
 
-/-- **C19_outer_frame_scope_partial.** Unless the return address is the first address of a block or the address
-    right after its last instruction, an outer frame lists what is in scope at its call instruction. -/
-theorem C19_outer_frame_scope_partial (f : Die) (ra : Nat) (hra : 0 < ra) (h : NotAtScopeEdge f ra = true) (e : Entry) :
-    e ∈ localVariables f ra ↔ e ∈ localVariables f (ra - 1) := by
-  rw [C19_locals_in_scope, C19_locals_in_scope]
+/-- **C19_outer_frame_scope.** For every function DIE tree, every outer frame `k+1` with return address `ra` and every
+    address `a` of its call instruction `[ra - len, ra)` (any length): the variables listed in the frame are exactly
+    those in scope at `a` — whether or not the return address is the first address of another block or the address
+    right after the block's last instruction. -/
+theorem C19_outer_frame_scope (f : Die) (k ra len a : Nat)
+    (ha : ra - len ≤ a ∧ a < ra) (hw : WholeInstr f (ra - len) ra) (e : Entry) :
+    e ∈ localVariables f (lookupPc (k + 1) ra) ↔ e ∈ localVariables f a := by
+  have hl : lookupPc (k + 1) ra = ra - 1 := by simp [lookupPc]
+  rw [hl, C19_locals_in_scope, C19_locals_in_scope]
   unfold InScope
   constructor
   · rintro ⟨hm, ht, hs⟩
     refine ⟨hm, ht, ?_⟩
     intro i hi
     obtain ⟨r, hr, h1, h2⟩ := hs i hi
-    have := List.all_eq_true.mp h e hm
-    rw [hi] at this
-    have := List.all_eq_true.mp this r hr
-    simp at this
+    have := hw e hm i hi r hr
     exact ⟨r, hr, by omega, by omega⟩
   · rintro ⟨hm, ht, hs⟩
     refine ⟨hm, ht, ?_⟩
     intro i hi
     obtain ⟨r, hr, h1, h2⟩ := hs i hi
-    have := List.all_eq_true.mp h e hm
-    rw [hi] at this
-    have := List.all_eq_true.mp this r hr
-    simp at this
+    have := hw e hm i hi r hr
     exact ⟨r, hr, by omega, by omega⟩
 
-/-- **C19_outer_frame_scope_counterexample.** `{ let x = 2; callee(x) }` with the call as the block's last
-    instruction (block `[0x20, 0x50)`, return address 0x50): in the caller's frame the inner `x` is not listed. -/
-theorem C19_outer_frame_scope_counterexample : ¬ C19_outer_frame_scope_full := by
-  intro h
-  have h1 : innerX ∈ localVariables shadowWitness (0x50 - 1) := by
-    rw [C19_locals_in_scope]
+/-- … and the name lookup in an outer frame is the lookup at its call instruction (same hypothesis) -/
+theorem C19_outer_frame_lookup_scope (f : Die) (k ra len a n : Nat)
+    (ha : ra - len ≤ a ∧ a < ra) (hw : WholeInstr f (ra - len) ra) (v : Entry)
+    (h : localVariable f (lookupPc (k + 1) ra) n = some v) :
+    (InScope f a v ∧ v.2.info.name = some n) ∧ ∀ w, InScope f a w → w.2.info.name = some n → w.1.length ≤ v.1.length := by
+  have key : ∀ e, InScope f (lookupPc (k + 1) ra) e ↔ InScope f a e := by
+    intro e
+    rw [← C19_locals_in_scope, ← C19_locals_in_scope]
+    exact C19_outer_frame_scope f k ra len a ha hw e
+  obtain ⟨⟨h1, h2⟩, h3⟩ := C19_shadow_innermost f _ n v h
+  exact ⟨⟨(key v).mp h1, h2⟩, fun w hw hn => h3 w ((key w).mpr hw) hn⟩
+
+/-- witness of the repaired defect: `{ let x = 2; callee(x) }` with the call (5 bytes) as the block's last instruction
+    (block `[0x20, 0x50)`, return address 0x50): in the caller's frame the inner `x` IS listed.  History: before the repair
+    (`fix: locals of an outer frame were looked up at the return address`) the scope was taken at 0x50 itself and the
+    inner `x` was missing; replayed on the real debugger on every run (corpus/C19/witnesses.req, oracle key
+    outer-frame-scope-taken-at-the-return-address-misses-a-live-local). -/
+theorem outerFrameWitness : innerX ∈ localVariables shadowWitness (lookupPc 1 0x50) ∧ innerX ∉ localVariables shadowWitness 0x50 := by
+  constructor
+  · rw [C19_locals_in_scope]
     refine ⟨innerX_inScope.1, rfl, ?_⟩
     intro i hi
     simp [nearestScope, innerX] at hi
     subst hi
     exact ⟨⟨0x20, 0x50⟩, by simp, by decide, by decide⟩
-  have h2 := (h shadowWitness 0x50 innerX (by decide)).mpr h1
-  rw [C19_locals_in_scope] at h2
-  obtain ⟨r, hr, h3, h4⟩ := h2.2.2 ⟨0x30, .block, none, [⟨0x20, 0x50⟩]⟩ (by simp [nearestScope, innerX])
-  simp at hr
-  subst hr
-  simp at h4
+  · intro h2
+    rw [C19_locals_in_scope] at h2
+    obtain ⟨r, hr, h3, h4⟩ := h2.2.2 ⟨0x30, .block, none, [⟨0x20, 0x50⟩]⟩ (by simp [nearestScope, innerX])
+    simp at hr
+    subst hr
+    simp at h4
 
 /-! ## 3. Location lists -/
 
@@ -372,6 +382,8 @@ theorem C19_frame_values_distinct (regs0 : List (Option Nat)) (cfas : List Nat) 
 #guard (localVariables shadowWitness 0x30).map (·.2.info.id) == [0x21, 0x31]
 #guard (localVariables shadowWitness 0x10).map (·.2.info.id) == [0x21]       -- inner block not entered
 #guard (localVariables shadowWitness 0x04).map (·.2.info.id) == []           -- before the outer block
+#guard (localVariables shadowWitness (lookupPc 1 0x50)).map (·.2.info.id) == [0x21, 0x31]   -- outer frame returning to the block's end
+#guard (localVariables shadowWitness (lookupPc 0 0x50)).map (·.2.info.id) == [0x21]
 #guard (localVariable shadowWitness 0x10 0x78).map (·.2.info.id) == some 0x21
 #guard (localVariable shadowWitness 0x30 0x78).map (·.2.info.id) == some 0x31   -- the inner x shadows the outer one
 #guard (localVariable shadowWitness 0x60 0x78).map (·.2.info.id) == some 0x21   -- inner block left again
@@ -393,8 +405,11 @@ example : localVariable shadowWitness 0x10 0x78 = some outerX := shadowWitness_l
 -- the shadowing case is covered by the theorem: two live bindings, the deeper one is shown
 example : outerX.1.length < innerX.1.length ∧ localVariable shadowWitness 0x30 0x78 = some innerX :=
   ⟨by decide, shadowWitness_lookup⟩
-example : NotAtScopeEdge shadowWitness 0x30 = true := by
-  simp [NotAtScopeEdge, shadowWitness, descP, descPL, nearestScope]
+-- the hypothesis of C19_outer_frame_scope is satisfiable at a block edge: the 5-byte call `[0x4b, 0x50)` ending the inner block
+example : WholeInstr shadowWitness (0x50 - 5) 0x50 := by
+  intro e he i hi r hr
+  simp [shadowWitness, descP, descPL] at he
+  rcases he with rfl | rfl | rfl | rfl <;> simp [nearestScope] at hi <;> subst hi <;> simp at hr <;> subst hr <;> decide
 example : selectEntry accLoclist 0xba10 = some ⟨0xba00, 0xba15, .const 7⟩ := by decide
 example : (frameRegs [] [0x7000, 0x7040] 2).regs[7]? = some (some 0x7040) := by decide
 example : evalLoc (frameRegs [] [0x7000, 0x7040] 1) 7 (.fbreg 8) ≠ evalLoc (frameRegs [] [0x7000, 0x7040] 2) 7 (.fbreg 8) :=
